@@ -164,6 +164,19 @@ theorem C08_init_subclass_once (c : Case) (hwf : wf c = true) :
       (if c.mro.any (·.initSubclass) && !c.body.any (·.1 == "__attrs_init_subclass__") then [.new] else []) :=
   spec_isub c (wf_names c hwf) (wf_body c hwf)
 
+/-- **C08_init_subclass_sees_final_class**: the inherited hook runs after the closure cells were rewritten
+    (`hookCalls` is defined on the final cell store, mirroring the order create class → rewrite cells → call
+    hook): whatever function of the new class the hook invokes — method, classmethod, staticmethod, property
+    accessor, cached property — already sees the class the hook received, not the discarded original. -/
+theorem C08_init_subclass_sees_final_class (c : Case) (hwf : wf c = true) (l : Label) (v : CellVal)
+    (h : (l, v) ∈ (model c).hookCalls) : v = .new ∨ isOpaqueKey c l.1 = true := by
+  have e : (model c).hookCalls = hookCalls c := rfl
+  rw [e] at h
+  unfold hookCalls at h
+  split at h
+  · cases h
+  · exact calls_entry c (wf_body c hwf) (wf_cells c hwf) l v h
+
 /-- **C08_init_subclass_chain**: along any chain of plain / dict-built / slotted-built classes, each attrs-built
     level without its own definition below some definition is announced exactly once (every other level
     never), with the class finally bound for that level, by the nearest definition above it. -/
